@@ -81,7 +81,7 @@ StripChanPrefix(s) == IF Len(s) > 1 /\ Chr(s, 1) \in PrefixChars /\ Chr(s, 2) \i
                       THEN StripChanPrefix(Drop(s, 1)) ELSE s
 C04_Views(S, c, x) ==     \* for a member c of channel x: the three views list exactly the members
     LET n == NickOf(S, c)
-        names == {StripNickPrefix(m.a[3]) : m \in {y \in ToSet(NamesOut(S, c, x, TRUE)) : y.c = "353"}}
+        names == {StripNickPrefix(m.a[2]) : m \in {y \in ToSet(NamesOut(S, c, x, TRUE)) : y.c = "353"}}
         who == {m.a[4] : m \in {y \in ToSet(HWho(S, c, x)) : y.c = "352"}}
         whois == {u \in DOMAIN S.users :
                     \E m \in ToSet(HWhois(S, c, <<>>, <<u>>)) : m.c = "319" /\ StripChanPrefix(m.a[2]) = x}
